@@ -21,7 +21,7 @@ CLAIM = dict(
           "insertion-ordered association list (overwrite keeps place, insert appends, re-insert appends) and the list a "
           "1-indexed sequence, with equal results and equal collections after every step and no Go panic; read = last write, "
           "长度 = number of stored elements, iteration / 所有索引 / 所有值 / display / JSON key order are all the one abstract order; "
-          "laws of 后增 前增 左移 右移 交换 逆序 合并 包含 寻找 首项 末项; out-of-range # and missing keys give the index errors and leave "
+          "laws of 后增 前增 左移 右移 (also on the empty list) 交换 逆序 合并 包含 寻找 拼接 首项 末项; out-of-range # and missing keys give the index errors and leave "
           "the collection unchanged, writing a new key inserts. The model is tied to the code on every run: all short histories over a "
           "small alphabet and long random ones (indices 0, negative, > length, fractional, huge, NaN, Inf; duplicate keys; "
           "nested values) applied to the real objects, results and full dumps compared after every operation, plus programs; every "
